@@ -398,3 +398,30 @@ func Verif_C06_seen_table_keeps_entries_for_the_full_expiry_time() {
 	s.cancelFunc()
 	verifapi.Quiesce()
 }
+
+// Verif_C06_picture_survives_a_direct_link_coming_up: node B is already known through the mesh (its
+// accepted update lists its links to C and D); then B connects directly (real protocol loop, handshake
+// only - B's next update has not arrived yet). The picture of B keeps everything the accepted update
+// said: a link coming up adds the edge to us, it does not take B's other links away.
+func Verif_C06_picture_survives_a_direct_link_coming_up() {
+	verifapi.SelectFork(false)
+	n := verifNetceptor("A")
+	s := n.s
+	n.verifConn("C", 1)
+	s.knownConnectionCosts["A"] = map[string]float64{"C": 1}
+	s.knownConnectionCosts["B"] = map[string]float64{"C": 1, "D": 1}
+	s.knownConnectionCosts["C"] = map[string]float64{"A": 1, "B": 1}
+	s.knownNodeInfo["B"] = &nodeInfo{Epoch: 5, Sequence: 7}
+	// the handshake is an update that repeats nothing new about B (same epoch and sequence as already accepted)
+	hs := &routingUpdate{NodeID: "B", UpdateID: "hs", UpdateEpoch: 5, UpdateSequence: 7, Connections: map[string]float64{"A": 1}, ForwardingNode: "B"}
+	r := verifStartProtocol(n, [][]byte{append([]byte{MsgTypeRoute}, verifapi.JSON(hs)...)}, &BackendInfo{connectionCost: 1})
+	verifapi.Quiesce()
+	verifapi.Cover("direct-link-up")
+	_, up := s.connections["B"]
+	verifapi.Assert("direct-link-established", up)
+	kb := s.knownConnectionCosts["B"]
+	verifapi.Assert("accepted-picture-of-the-origin-kept", verifapi.All(kb["C"] == 1, kb["D"] == 1))
+	verifapi.Assert("edge-to-us-added", kb["A"] == 1)
+	close(r.sess.gate)
+	verifapi.Quiesce()
+}
